@@ -105,7 +105,12 @@ def grid_jobs(seed, count, steps, full=False):
         q = dict(c)
         q["maxpubs"] = rnd.choice((1, 2, 2, 3))
         q["maxsubs"] = rnd.choice((1, 2, 2, 3))
-        jobs.append({"cfg": q, "gen": {"seed": seed * 100003 + i, "steps": steps}})
+        # further dimensions, sampled per job: expired-connection buffer (small values only matter with several
+        # publishers), payload alignment, connection faults (exercised with the default large expired buffer)
+        q["expbuf"] = rnd.choice((64, 64, 1, 2)) if q["maxpubs"] > 1 else 64
+        q["align"] = rnd.choice((8, 8, 16, 64, 256))
+        faults = 1 if (q["expbuf"] == 64 and i % 3 == 1) else 0
+        jobs.append({"cfg": q, "gen": {"seed": seed * 100003 + i, "steps": steps, "faults": faults}})
     return jobs
 
 
@@ -223,13 +228,15 @@ def mc_counterexample(res):
     return steps
 
 
-def report_mc_violation(ctx, pid, name, q, nchunks, res):
+def report_mc_violation(ctx, pid, name, q, nchunks, res, cqx=1):
     inv = res.violated
     owner = INV_OWNER.get(inv, pid)
     ctx.report(vp.Violation(
         f"TLC refutes {inv} of PubSub.tla instantiated with the number of chunks the code allocates "
-        f"(N={nchunks} for {short(q)}) on instance {name}",
-        replay={"kind": "model", "instance": name, "qos": q, "number_of_samples": nchunks, "invariant": inv,
+        f"(N={nchunks} for {short(q)}) and the completion queue capacity it creates (buffer + max borrow + {cqx}) "
+        f"on instance {name}",
+        replay={"kind": "model", "instance": name, "qos": q, "number_of_samples": nchunks,
+                "completion_queue_capacity_minus_buffer_minus_borrow": cqx, "invariant": inv,
                 "owner": owner, "counterexample": mc_counterexample(res),
                 "cmd": f"work/{ctx.pid}-{ctx.tier}/mc/{name}: tlc {name}.tla"},
         signature=f"mc:{inv}:{short(q)}"))
@@ -238,10 +245,10 @@ def report_mc_violation(ctx, pid, name, q, nchunks, res):
 _re_alias = re.compile(r'o = "(.*)"\s*$')
 
 
-def witness(ctx, name, trap, q, pubs, subs, bufs, reqs, maxids, nchunks, view=None, timeout=300):
+def witness(ctx, name, trap, q, pubs, subs, bufs, reqs, maxids, nchunks, view=None, timeout=300, opts=None):
     """Trap invariant = negated target state; returns the program (list of out records) reaching it."""
     extra = f"INVARIANTS Trap_{trap}\nALIAS TraceAlias\n" + (f"VIEW {view}\n" if view else "")
-    d = write_instance(ctx, name, "PubSubWitness", q, pubs, subs, bufs, reqs, nchunks, maxids, cfg_extra=extra)
+    d = write_instance(ctx, name, "PubSubWitness", q, pubs, subs, bufs, reqs, nchunks, maxids, cfg_extra=extra, opts=opts)
     res = vp.tlc(d, name, workers=8, timeout=timeout, libs=["api"], coverage=False)
     vp.record_tlc(ctx, f"witness {trap} [{short(q)}]", res, count=False)
     if res.timed_out:
@@ -260,14 +267,52 @@ def witness(ctx, name, trap, q, pubs, subs, bufs, reqs, maxids, nchunks, view=No
                 prog.append(rec)
     if not prog:
         raise vp.ToolError(f"witness run {name}: no behaviour in TLC output")
-    return prog
+    return fold_nested(prog)
 
 
-def simulate(ctx, name, q, pubs, subs, bufs, reqs, maxids, nchunks, num, depth, seed, timeout=300):
+def fold_nested(prog):
+    """A behaviour of the specification -> a driver program.  The sub-steps of a split send
+    (send_begin, deliver*, bp, <calls made while the handler runs>, bp_ret, ..., send_end) become ONE send
+    action whose script tells the driver's unable-to-deliver handler which calls to make and what to answer
+    at its k-th invocation.  (The real code may invoke the handler for other connections / in another order
+    than the behaviour assumed: a program is only an input, the recorded trace is what gets validated.)"""
+    out, cur, entry = [], None, None
+    for r in prog:
+        a = r.get("a")
+        if a == "send_begin":
+            cur, entry = {"a": "send", "p": r["p"], "id": r["id"], "nest": []}, None
+        elif cur is None:
+            out.append(r)
+        elif a == "deliver":
+            pass
+        elif a == "bp":
+            entry = {"ops": [], "act": "discard"}
+            cur["nest"].append(entry)
+        elif a == "bp_ret":
+            if entry is not None:
+                entry["act"] = r.get("act", "discard")
+            entry = None
+        elif a == "send_end":
+            out.append(cur)
+            cur, entry = None, None
+        elif entry is not None:
+            entry["ops"].append(r)
+        else:
+            # a call between two sub-steps outside of a handler (only instances with ConcurrentSub): the
+            # sequential driver cannot place it there - it is executed right after the send
+            out.append(cur)
+            out.append(r)
+            cur = None
+    if cur is not None:
+        out.append(cur)
+    return out
+
+
+def simulate(ctx, name, q, pubs, subs, bufs, reqs, maxids, nchunks, num, depth, seed, timeout=300, opts=None):
     """tlc -simulate: `num` random behaviours of `depth` API calls each."""
     body = ""
     d = write_instance(ctx, name, "PubSubGen", q, pubs, subs, bufs, reqs, nchunks, maxids, body=body,
-                       cfg_extra="INVARIANTS Emit\n", spec="GenSpec", genlen=depth)
+                       cfg_extra="INVARIANTS Emit\n", spec="GenSpec", genlen=depth, opts=opts)
     res = vp.tlc(d, name, workers=1, timeout=timeout, libs=["api"], coverage=False,
                  simulate=f"num={num}", extra=["-depth", str(depth + 1), "-seed", str(seed)])
     vp.record_tlc(ctx, f"simulate [{short(q)} num={num} depth={depth}]", res, count=False)
@@ -281,7 +326,7 @@ def simulate(ctx, name, q, pubs, subs, bufs, reqs, maxids, nchunks, num, depth, 
             key = json.dumps(prog[:-1], sort_keys=True)     # the invariant fires for every last step of a walk
             if key not in seen:
                 seen.add(key)
-                progs.append(prog)
+                progs.append(fold_nested(prog))
     if not progs:
         raise vp.ToolError(f"simulation {name} produced no behaviour:\n{res.output[-2000:]}")
     return progs[:num]
@@ -308,7 +353,20 @@ def witness_plan():
         "Saturated": (Q(maxpubs=1, maxsubs=2, bufmax=1, hist=1, borrow=1, loan=1, overflow=True), [1], [1, 2], [1], [0, 1], 4),
         "StaleOwner": (Q(maxpubs=1, maxsubs=1, bufmax=2, hist=1, borrow=1, loan=1, overflow=True), [1], [1], [2], [0], 3),
         "HistoryEvictHeld": (Q(maxpubs=1, maxsubs=1, bufmax=2, hist=1, borrow=1, loan=1, overflow=True), [1], [1], [2], [1], 3),
+        # the receiver returns everything it owns between the sender's reclaim and its push (split send)
+        "CqFull": (Q(maxpubs=1, maxsubs=1, bufmax=1, hist=0, borrow=1, loan=1, overflow=False, strategy="retry_discard"),
+                   [1], [1], [1], [0], 3, inst_opts(split=True)),
+        # exact worst case of the data segment: every chunk has a holder and all loans are out
+        "ChunksExhausted": (Q(maxpubs=1, maxsubs=1, bufmax=1, hist=1, borrow=1, loan=1, overflow=False), [1], [1], [1], [0], 4),
+        "ChunksExhausted2": (Q(maxpubs=1, maxsubs=2, bufmax=1, hist=1, borrow=1, loan=1, overflow=False), [1], [1, 2], [1], [0], 6),
+        # expired-connection buffer (2) overflows while samples of vanished publishers are held
+        "ExpiredDiscard": (Q(maxpubs=2, maxsubs=1, bufmax=2, hist=0, borrow=2, loan=1, overflow=True, expbuf=2),
+                           [1, 2, 3], [1], [2], [0], 3),
     }
+
+
+TRAP_OF = {"ChunksExhausted2": "ChunksExhausted"}
+ALIGNED_TARGETS = ("ChunksExhausted", "ChunksExhausted2", "Saturated")
 
 
 def witnesses(ctx, targets, regenerate):
@@ -324,10 +382,12 @@ def witnesses(ctx, targets, regenerate):
     if todo:
         ns = read_chunks(ctx, [plan[t][0] for t in todo], "wit")
         for t, n in zip(todo, ns):
-            q, pubs, subs, bufs, reqs, maxids = plan[t]
+            q, pubs, subs, bufs, reqs, maxids = plan[t][:6]
+            opts = plan[t][6] if len(plan[t]) > 6 else None
             # targets over the ghost history need it in the fingerprint, the others only the system state
-            view = "SysView" if t in ("Saturated", "StaleOwner") else "NoOutView"
-            prog = witness(ctx, f"W_{t}", t, q, pubs, subs, bufs, reqs, maxids, n, view=view, timeout=900)
+            view = "SysView" if t in ("Saturated", "StaleOwner", "CqFull", "ChunksExhausted", "ChunksExhausted2") else "NoOutView"
+            prog = witness(ctx, f"W_{t}", TRAP_OF.get(t, t), q, pubs, subs, bufs, reqs, maxids, n, view=view, timeout=900,
+                           opts=opts)
             if prog is None:
                 raise vp.ToolError(f"witness target {t} is unreachable")
             out[t] = prog
@@ -340,7 +400,7 @@ def witnesses(ctx, targets, regenerate):
 
 
 def strip(e):
-    return {k: v for k, v in e.items() if k in ("a", "p", "s", "id", "buf", "req")}
+    return {k: v for k, v in e.items() if k in ("a", "p", "s", "id", "buf", "req", "deg", "nest")}
 
 
 # ---------------------------------------------------------------------------------------------
@@ -400,7 +460,7 @@ def known_defect_tags(output, items):
 
 
 def describe(e):
-    keys = [k for k in ("p", "s", "id", "buf", "req", "deg", "k", "act", "c", "n", "blk", "cnt", "cs", "v", "cok", "r", "msg")
+    keys = [k for k in ("p", "s", "id", "buf", "req", "deg", "ri", "act", "c", "n", "blk", "cnt", "cs", "v", "cok", "r", "msg")
             if k in e]
     return e.get("a", e.get("k")) + "(" + ", ".join(f"{k}={e[k]}" for k in keys) + ")" + \
         (f" BAD={e['bad']}" if e.get("bad") else "")
@@ -545,23 +605,45 @@ def saturation_tail(q, pubs=(1,), subs=(1, 2)):
 
 
 def mc_phase(ctx, pid, insts, code_dependent):
-    """Design check of PubSub.tla on `insts` = [(name, qos, pubs, subs, bufs, reqs, maxids, view)].
+    """Design check of PubSub.tla on `insts` = [(name, qos, pubs, subs, bufs, reqs, maxids, view[, opts])].
     `code_dependent`: a refutation is a verdict about the code (the instance carries the number of
-    chunks read from the running code, V2); otherwise it is a defect of the specification (tool error)."""
-    ns = read_chunks(ctx, [i[1] for i in insts], "mc")
-    for (name, q, pubs, subs, bufs, reqs, maxids, view), n in zip(insts, ns):
+    chunks and the completion queue capacity read from the running code, V2); otherwise it is a defect of
+    the specification (tool error)."""
+    # one parameter probe per (instance, buffer choice): the completion queue capacity depends on the buffer size
+    probes = []
+    for i in insts:
+        for b in i[4]:
+            probes.append(dict(i[1], bufmax=b) if b <= i[1]["bufmax"] else None)
+    real = [p for p in probes if p is not None]
+    ns_all, cq_all = read_params(ctx, [i[1] for i in insts] + real, "mc")
+    ns = ns_all[:len(insts)]
+    cqs = iter(cq_all[len(insts):])
+    extras, k = [], 0
+    for i in insts:
+        ex = []
+        for b in i[4]:
+            if probes[k] is not None:
+                ex.append(next(cqs) - b - i[1]["borrow"])
+            k += 1
+        extras.append(min(ex) if ex else 1)
+    for inst, n, cqx in zip(insts, ns, extras):
+        name, q, pubs, subs, bufs, reqs, maxids, view = inst[:8]
+        opts = dict(inst[8]) if len(inst) > 8 and inst[8] else inst_opts()
+        opts["cqextra"] = cqx
         res = model_check(ctx, pid, name, q, pubs, subs, bufs, reqs, maxids, n, view=view,
-                          timeout=1500 if ctx.quick else 3600)
+                          timeout=1500 if ctx.quick else 3600, opts=opts)
         if res.violated:
             if code_dependent and INV_OWNER.get(res.violated) in ("C02", "C08"):
-                report_mc_violation(ctx, pid, name, q, n, res)
+                report_mc_violation(ctx, pid, name, q, n, res, cqx)
                 continue
             raise vp.ToolError(f"PubSub.tla violates {res.violated} on {name}:\n{res.output[-3000:]}")
         if not res.ok:
             raise vp.ToolError(f"TLC failed on {name}: {res.error}\n{res.output[-3000:]}")
         impossible = {"ASend", "ADropLoan", "ADropSample"} if q["loan"] == 0 else set()
-        check_coverage(res, name, [a for a in ACTIONS if a not in impossible])
+        need = ACTIONS + (FAULT_ACTIONS if opts["faults"] else []) + (SPLIT_ACTIONS if opts["split"] else [])
+        check_coverage(res, name, [a for a in need if a not in impossible])
     ctx.coverage["number_of_samples_read_from_code"] = {i[0]: n for i, n in zip(insts, ns)}
+    ctx.coverage["completion_queue_extra_read_from_code"] = {i[0]: x for i, x in zip(insts, extras)}
 
 
 def roundtrip(ctx, pid, targets, tail_fn, need_events, nsim, depth, ngen, steps, variants, scripted=()):
@@ -575,8 +657,13 @@ def roundtrip(ctx, pid, targets, tail_fn, need_events, nsim, depth, ngen, steps,
     jobs, labels = [], []
     for t in targets:
         q = plan[t][0]
-        for payload, variant in variants:
-            jobs.append({"cfg": dict(q, payload=payload, variant=variant), "program": wits[t] + tail_fn(t, q)})
+        vs = [(v[0], v[1], 8) for v in variants]
+        if t in ALIGNED_TARGETS:
+            # over-aligned payloads: the first chunk of the data segment starts at another place; the declared
+            # worst case must still fit (alignment 16 / 64 / 256 x payload kind x service variant)
+            vs += [(v[0], v[1], a) for a in (16, 64, 256) for v in variants]
+        for payload, variant, align in vs:
+            jobs.append({"cfg": dict(q, payload=payload, variant=variant, align=align), "program": wits[t] + tail_fn(t, q)})
             labels.append(f"witness:{t}")
         if len(ctx.samples) < 2:
             ctx.sample({"witness": t, "from": "TLC trap invariant" if t in regen else "cache (TLC trap invariant)",
@@ -591,9 +678,16 @@ def roundtrip(ctx, pid, targets, tail_fn, need_events, nsim, depth, ngen, steps,
     simq = qos(maxpubs=2, maxsubs=3, bufmax=2, hist=2, borrow=2, loan=2, overflow=(sel == 0),
                strategy=("discard", "retry_fail", "retry_discard")[sel])
     sn = read_chunks(ctx, [simq], "sim")[0]
-    progs = simulate(ctx, "SIM", simq, [1, 2, 3], [1, 2, 3], [1, 2], [0, 1, 2], 60, sn, nsim, depth, seed)
-    for i, prog in enumerate(progs):
-        jobs.append({"cfg": dict(simq, payload=("u64", "slice")[i % 2], variant=("ipc", "local")[(i // 2) % 2]),
+    # one half plain (split form of send where the handler can run), one half with connection faults and a
+    # small expired-connection buffer
+    n1 = (nsim + 1) // 2
+    progs = [(simq, p) for p in simulate(ctx, "SIM", simq, [1, 2, 3], [1, 2, 3], [1, 2], [0, 1, 2], 60, sn, n1, depth, seed,
+                                         opts=inst_opts(split=True))]
+    simf = dict(simq, expbuf=(1, 2, 64)[seed % 3])
+    progs += [(simf, p) for p in simulate(ctx, "SIMF", simf, [1, 2, 3, 4], [1, 2, 3], [1, 2], [0, 1, 2], 60, sn, nsim - n1,
+                                          depth, seed + 1, opts=inst_opts(faults=True, split=True, degs=("warn", "ignore", "fail")))]
+    for i, (sq, prog) in enumerate(progs):
+        jobs.append({"cfg": dict(sq, payload=("u64", "slice")[i % 2], variant=("ipc", "local")[(i // 2) % 2]),
                      "program": prog})
         labels.append("simulated")
     gen = grid_jobs(seed, ngen, steps, full=not quick)
@@ -754,6 +848,152 @@ def amplifier_jobs(variants):
                 p += 1
         for payload, variant in variants[:2]:
             jobs.append({"cfg": dict(q, payload=payload, variant=variant), "program": prog})
+    return jobs
+
+
+def _send(p, n=1):
+    return [{"a": "loan", "p": p}, {"a": "send", "p": p, "id": 0}] * n
+
+
+def _take(s, n=1, keep=False):
+    return ([{"a": "recv", "s": s}] + ([] if keep else [{"a": "drop_sample", "s": s, "id": 0}])) * n
+
+
+def fault_jobs(variants):
+    """Scripted connection-fault programs.  Class: a connection fault with ONE peer (data segment of a publisher
+    removed from the system; sender side of a connection occupied by a foreign sender) must not disturb delivery /
+    chunk ownership for the OTHER peers, whatever the degradation handler answers (default Warn / Ignore /
+    DegradeAndFail) and wherever the faulty peer sits in the registry (before / after / between the healthy ones,
+    in a reused slot)."""
+    jobs = []
+    n = 0
+    for deg in ("fail", "warn", "ignore"):
+        for overflow in (True, False):
+            q = qos(maxpubs=3, maxsubs=2, bufmax=3, hist=1, borrow=2, loan=1, overflow=overflow,
+                    strategy="discard" if overflow else "retry_discard")
+            # (a) subscriber side, start-up: the faulty publisher is registered before / between / after the healthy ones
+            for order in ((1, 2, 3), (2, 1, 3), (2, 3, 1)):         # position of the faulty publisher 1
+                prog = [{"a": "create_pub", "p": p} for p in order]
+                prog += _send(2) + [{"a": "break_seg", "p": 1}, {"a": "create_sub", "s": 1, "buf": 3, "req": 1, "deg": deg},
+                                    {"a": "has", "s": 1}]
+                for _ in range(2):
+                    prog += _send(2) + _send(3) + _send(1) + _take(1, 3) + [{"a": "has", "s": 1}]
+                # registry change: the update is repeated (and fails again), then the faulty publisher leaves
+                prog += [{"a": "create_sub", "s": 2, "buf": 2, "req": 0, "deg": deg}] + _send(2) + _take(1, 2) + _take(2, 2)
+                prog += [{"a": "drop_pub", "p": 3}, {"a": "update_sub", "s": 1}] + _send(2) + _take(1, 2) + _take(2, 2)
+                prog += [{"a": "drop_pub", "p": 1}, {"a": "has", "s": 1}, {"a": "has", "s": 2}] + _send(2) + _take(1, 2) + _take(2, 2)
+                prog += [{"a": "probe", "p": 2}]
+                n += 1
+                payload, variant = variants[n % len(variants)][:2]
+                jobs.append({"cfg": dict(q, payload=payload, variant=variant), "program": prog})
+            # (b) subscriber side, run time: a publisher leaves, a new one takes over its (lower) slot and breaks
+            prog = [{"a": "create_pub", "p": 1}, {"a": "create_pub", "p": 2}, {"a": "create_sub", "s": 1, "buf": 3, "req": 0, "deg": deg}]
+            prog += _send(2, 2) + _take(1) + [{"a": "drop_pub", "p": 1}, {"a": "create_pub", "p": 3}, {"a": "break_seg", "p": 3}]
+            prog += _take(1, 3) + [{"a": "has", "s": 1}]
+            for _ in range(3):
+                prog += _send(2) + _send(3) + _take(1, 2)
+            prog += [{"a": "create_pub", "p": 4}] + _send(4) + _send(2) + _take(1, 3) + [{"a": "update_sub", "s": 1}, {"a": "has", "s": 1}]
+            prog += [{"a": "drop_pub", "p": 2}, {"a": "create_pub", "p": 5}] + _send(5) + _send(4) + _take(1, 3) + [{"a": "has", "s": 1}]
+            n += 1
+            payload, variant = variants[n % len(variants)][:2]
+            jobs.append({"cfg": dict(q, payload=payload, variant=variant), "program": prog})
+        # (c) publisher side: the connection to a NEW subscriber cannot be established while another subscriber
+        # (in a higher / lower slot) holds samples and has samples buffered
+        for maxsubs, overflow, via in ((2, True, "update_pub"), (2, False, "send"), (3, True, "send"), (3, False, "update_pub")):
+            q = qos(maxpubs=1, maxsubs=maxsubs, bufmax=2, hist=0, borrow=2, loan=2, overflow=overflow)
+            prog = [{"a": "create_pub", "p": 1, "deg": deg}, {"a": "create_sub", "s": 1, "buf": 2, "req": 0},
+                    {"a": "create_sub", "s": 2, "buf": 2, "req": 0}]
+            prog += _send(1, 2) + _take(2, 1, keep=True) + _take(1, 1)
+            prog += [{"a": "drop_sub", "s": 1, "mode": "orderly"}, {"a": "update_pub", "p": 1},
+                     {"a": "create_sub", "s": 3, "buf": 2, "req": 0}, {"a": "occupy", "p": 1, "s": 3}]
+            prog += ([{"a": "update_pub", "p": 1}] if via == "update_pub" else _send(1))
+            # the publisher goes on working with its memory: the sample subscriber 2 holds must not change
+            prog += [{"a": "probe", "p": 1}, {"a": "loan", "p": 1}, {"a": "loan", "p": 1}, {"a": "send", "p": 1, "id": 0},
+                     {"a": "send", "p": 1, "id": 0}, {"a": "probe", "p": 1}]
+            prog += _take(2, 1, keep=True) + [{"a": "has", "s": 3}, {"a": "recv", "s": 3}] + _send(1, 2)
+            prog += [{"a": "drop_sample", "s": 2, "id": 0}, {"a": "drop_sample", "s": 2, "id": 0}] + _take(2, 2) + [{"a": "probe", "p": 1}]
+            prog += [{"a": "create_sub", "s": 4, "buf": 1, "req": 0}] + _send(1, 2) + _take(2, 2) + _take(4, 1) + [{"a": "probe", "p": 1}]
+            n += 1
+            payload, variant = variants[n % len(variants)][:2]
+            jobs.append({"cfg": dict(q, payload=payload, variant=variant), "program": prog})
+    return jobs
+
+
+def nested_jobs(variants):
+    """Scripted re-entrancy programs: the unable-to-deliver handler of a retrying send runs between the reclaim
+    of the returned chunks and the push into the (full) buffer and lets the subscriber act there: return everything
+    it owns (buffer + borrows -> the completion queue then carries buffer + borrow + 1 entries), part of it, or
+    nothing; the handler answers retry / discard / fail.  Afterwards every holder class is saturated again."""
+    jobs = []
+    n = 0
+    for buf, borrow in ((1, 1), (2, 2), (2, 1), (1, 2), (3, 2)):
+        for strategy in ("retry_discard", "retry_fail"):
+            for hist in (0, 1):
+                q = qos(maxpubs=1, maxsubs=2, bufmax=buf, hist=hist, borrow=borrow, loan=2, overflow=False, strategy=strategy)
+                prog = [{"a": "create_sub", "s": 1, "buf": buf, "req": 0}, {"a": "create_pub", "p": 1}]
+                for rnd in range(3):
+                    # subscriber 1 at full borrow and full buffer
+                    prog += (_send(1) + _take(1, 1, keep=True)) * borrow + _send(1, buf)
+                    drain = [{"a": "drop_sample", "s": 1, "id": 0}] * borrow + _take(1, buf)
+                    if rnd == 0:
+                        nest = [{"ops": drain, "act": "retry"}]
+                    elif rnd == 1:      # room is made at the second invocation only, the handler then gives up:
+                        nest = [{"ops": [{"a": "has", "s": 1}], "act": "retry"}, {"ops": drain, "act": "discard"}]
+                    else:               # partial: one sample goes back, one is taken
+                        nest = [{"ops": [{"a": "drop_sample", "s": 1, "id": 0}, {"a": "recv", "s": 1}], "act": "retry"},
+                                {"ops": [], "act": "fail" if strategy == "retry_fail" else "discard"}]
+                    prog += [{"a": "loan", "p": 1}, {"a": "send", "p": 1, "id": 0, "nest": nest}]
+                    # the sample pushed after the handler is received and returned before the publisher reclaims
+                    prog += _take(1, 1) + [{"a": "recv", "s": 1}, {"a": "has", "s": 1}]
+                    # every reference is gone: everything must be usable again
+                    prog += [{"a": "drop_sample", "s": 1, "id": 0}] * borrow + _take(1, buf + 1)
+                    prog += (_send(1) + _take(1, 1, keep=True)) * borrow + _send(1, buf) + [{"a": "recv", "s": 1}, {"a": "probe", "p": 1}]
+                    prog += [{"a": "drop_sample", "s": 1, "id": 0}] * borrow + _take(1, buf + 1) + [{"a": "probe", "p": 1}]
+                    if rnd == 1:    # a second subscriber is served while the first one blocks
+                        prog += [{"a": "create_sub", "s": 2, "buf": 1, "req": 0}]
+                n += 1
+                payload, variant = variants[n % len(variants)][:2]
+                jobs.append({"cfg": dict(q, payload=payload, variant=variant), "program": prog})
+    return jobs
+
+
+def expired_jobs(variants):
+    """Scripted programs with a SMALL expired-connection buffer: publishers leave while the subscriber still holds
+    samples of some of them and has undelivered samples of others; when the buffer overflows only a connection
+    without held samples may be sacrificed."""
+    jobs = []
+    n = 0
+    for expbuf, borrow in ((2, 2), (1, 2), (1, 1), (3, 3)):
+        cap = max(expbuf, borrow)
+        for first in ("held", "data"):
+            for upd in ("update_sub", "has"):
+                q = qos(maxpubs=2, maxsubs=1, bufmax=2, hist=0, borrow=borrow, loan=1, overflow=(n % 2 == 0), expbuf=expbuf)
+                u = [{"a": upd, "s": 1}]
+                prog = [{"a": "create_sub", "s": 1, "buf": 2, "req": 0}]
+                p = 0
+                # fill the expired buffer: cap - 1 connections with a held sample (no data) and one with data only
+                order = (["held"] * (cap - 1) + ["data"]) if first == "held" else (["data"] + ["held"] * (cap - 1))
+                # the publisher that stays until the end; a sample of it is held
+                p += 1
+                stay = p
+                prog += [{"a": "create_pub", "p": stay}] + _send(stay) + _take(1, 1, keep=True)
+                for kind in order:
+                    p += 1
+                    prog += [{"a": "create_pub", "p": p}] + _send(p)
+                    if kind == "held":
+                        prog += _take(1, 1, keep=True)
+                    else:
+                        prog += [{"a": "update_sub", "s": 1}]
+                    prog += [{"a": "drop_pub", "p": p}] + u
+                # now the last publisher with a held sample leaves: the buffer is full
+                prog += [{"a": "drop_pub", "p": stay}] + u
+                prog += [{"a": "has", "s": 1}, {"a": "recv", "s": 1}, {"a": "recv", "s": 1}]
+                p += 1
+                prog += [{"a": "create_pub", "p": p}] + _send(p) + [{"a": "recv", "s": 1}]
+                prog += [{"a": "drop_sample", "s": 1, "id": 0}] * (cap + 2) + _take(1, 3) + [{"a": "has", "s": 1}, {"a": "probe", "p": p}]
+                n += 1
+                payload, variant = variants[n % len(variants)][:2]
+                jobs.append({"cfg": dict(q, payload=payload, variant=variant), "program": prog})
     return jobs
 
 
